@@ -17,6 +17,7 @@ import (
 	"go/format"
 	"go/parser"
 	"go/token"
+	"go/types"
 	"os"
 	"path/filepath"
 	"strconv"
@@ -36,6 +37,41 @@ var importMap = map[string][2]string{ // original path -> {shim path, default lo
 func die(format string, a ...any) {
 	fmt.Fprintf(os.Stderr, "INFRA(overlaygen): "+format+"\n", a...)
 	os.Exit(2)
+}
+
+// mapRanges holds the range statements whose operand is a map (decided by go/types on the
+// package with stubbed imports): their iteration order is made deterministic (sorted keys),
+// because hash-map iteration order is a source of nondeterminism the explorer must own.
+var mapRanges = map[*ast.RangeStmt]bool{}
+
+type stubImporter struct{}
+
+func (stubImporter) Import(path string) (*types.Package, error) {
+	name := path
+	if i := strings.LastIndex(path, "/"); i >= 0 {
+		name = path[i+1:]
+	}
+	p := types.NewPackage(path, name)
+	p.MarkComplete()
+	return p, nil
+}
+
+func findMapRanges(fset *token.FileSet, files []*ast.File) {
+	info := &types.Info{Types: map[ast.Expr]types.TypeAndValue{}}
+	conf := types.Config{Importer: stubImporter{}, Error: func(error) {}, DisableUnusedImportCheck: true}
+	_, _ = conf.Check("cdi", fset, files, info)
+	for _, f := range files {
+		ast.Inspect(f, func(n ast.Node) bool {
+			if rs, ok := n.(*ast.RangeStmt); ok {
+				if tv, ok := info.Types[rs.X]; ok && tv.Type != nil {
+					if _, isMap := tv.Type.Underlying().(*types.Map); isMap {
+						mapRanges[rs] = true
+					}
+				}
+			}
+			return true
+		})
+	}
 }
 
 type rewriter struct {
@@ -233,10 +269,32 @@ func (r *rewriter) rewriteStmt(s ast.Stmt) ast.Stmt {
 	case *ast.ForStmt:
 		st.Body.List = r.rewriteBlock(st.Body.List)
 	case *ast.RangeStmt:
-		if u, ok := st.X.(*ast.UnaryExpr); ok && u.Op == token.ARROW {
-			_ = u
-		}
 		st.Body.List = r.rewriteBlock(st.Body.List)
+		if mapRanges[st] && st.Key != nil {
+			// for k, v := range m {B}  =>  for _, kk := range sync.SortedKeys(m) { k, v := kk, m[kk]; B }
+			kk := r.fresh("k")
+			var pre []ast.Stmt
+			isBlank := func(e ast.Expr) bool { id, ok := e.(*ast.Ident); return ok && id.Name == "_" }
+			lhs, rhs := []ast.Expr{}, []ast.Expr{}
+			if !isBlank(st.Key) {
+				lhs, rhs = append(lhs, st.Key), append(rhs, ast.Expr(kk))
+			}
+			if st.Value != nil && !isBlank(st.Value) {
+				lhs, rhs = append(lhs, st.Value), append(rhs, ast.Expr(&ast.IndexExpr{X: st.X, Index: kk}))
+			}
+			if len(lhs) > 0 {
+				pre = append(pre, &ast.AssignStmt{Lhs: lhs, Tok: st.Tok, Rhs: rhs})
+				if st.Tok == token.DEFINE {
+					for _, l := range lhs {
+						pre = append(pre, &ast.AssignStmt{Lhs: []ast.Expr{ast.NewIdent("_")}, Tok: token.ASSIGN, Rhs: []ast.Expr{l}})
+					}
+				}
+			}
+			pre = append(pre, &ast.AssignStmt{Lhs: []ast.Expr{ast.NewIdent("_")}, Tok: token.ASSIGN, Rhs: []ast.Expr{kk}})
+			body := &ast.BlockStmt{List: append(pre, st.Body.List...)}
+			return &ast.RangeStmt{Key: ast.NewIdent("_"), Value: kk, Tok: token.DEFINE,
+				X: &ast.CallExpr{Fun: sel(r.ensureSync(), "SortedKeys"), Args: []ast.Expr{st.X}}, Body: body}
+		}
 	case *ast.SwitchStmt:
 		for _, c := range st.Body.List {
 			cc := c.(*ast.CaseClause)
@@ -292,12 +350,7 @@ func (r *rewriter) rewriteExprsIn(n ast.Node) {
 	})
 }
 
-func rewriteFile(path, out string) {
-	fset := token.NewFileSet()
-	f, err := parser.ParseFile(fset, path, nil, parser.ParseComments)
-	if err != nil {
-		die("cannot parse %s: %v", path, err)
-	}
+func rewriteFile(fset *token.FileSet, f *ast.File, path, out string) {
 	r := &rewriter{fset: fset, file: f, path: path}
 	for _, imp := range f.Imports {
 		p, _ := strconv.Unquote(imp.Path.Value)
@@ -402,15 +455,31 @@ func main() {
 	if err != nil {
 		die("%v", err)
 	}
+	fset := token.NewFileSet()
+	var names []string
+	var files, linuxFiles []*ast.File
 	for _, e := range ents {
 		n := e.Name()
 		if e.IsDir() || !strings.HasSuffix(n, ".go") || strings.HasSuffix(n, "_test.go") {
 			continue
 		}
+		f, err := parser.ParseFile(fset, filepath.Join(srcDir, n), nil, parser.ParseComments)
+		if err != nil {
+			die("cannot parse %s: %v", n, err)
+		}
+		names = append(names, n)
+		files = append(files, f)
+		if !strings.HasSuffix(n, "_windows.go") && !strings.HasSuffix(n, "_other.go") && !strings.HasSuffix(n, "_darwin.go") {
+			linuxFiles = append(linuxFiles, f)
+		}
+	}
+	findMapRanges(fset, linuxFiles)
+	for i, n := range names {
 		o := filepath.Join(out, "cdi", n)
-		rewriteFile(filepath.Join(srcDir, n), o)
+		rewriteFile(fset, files[i], filepath.Join(srcDir, n), o)
 		replace[filepath.Join(srcDir, n)] = o
 	}
+	fmt.Printf("overlaygen: %d range-over-map statements made deterministic\n", len(mapRanges))
 	// export file: needs the same local name for vsync as default-cache.go uses ("sync")
 	exp := strings.Replace(exportFile, `import "sort"`, "import (\n\t\"sort\"\n\tsync \""+shimBase+"vsync\"\n)", 1)
 	expPath := filepath.Join(out, "cdi", "export_verif.go")
